@@ -71,6 +71,80 @@ def multi_path_errors(ctx, rule):
 
 
 
+def error_hook_table(ctx, rule):
+    """error_hook hands every received error except the Exit pseudo-error to the handler exactly once (shared with C13: a failed registration is reported once per attempt)"""
+    facts = ctx.facts
+    eh = ctx.anchor_one(rule, "error_hook coroutine",
+                        [c for c in facts.children(ctx.anchor_fn(rule, "watchexec::watchexec::error_hook")) if c.kind == "coroutine"])
+    en = pathx.Enum(interesting=interesting)
+    ps = en.paths(thir.root(eh))
+    iters = set()
+    exits = []
+    for p in ps:
+        tail = []
+        for e in p.ev:
+            if e[0] == "loop":
+                iters |= set(e[1])
+            else:
+                tail.append(e)
+        exits.append((tuple(tail), p.out, p.val))
+
+    def analyse(evs, key, final=None):
+        got = [e for e in evs if e[0] in ("iflet", "arm") and "Receiver::recv(errors)" in e[1]]
+        is_exit = [e for e in evs if e[0] == "arm" and e[1] == "err"]
+        # `matches!(err, RuntimeError::Exit)` / `err == RuntimeError::Exit` arrive as an equality branch: same evidence
+        for e in evs:
+            if e[0] == "branch" and e[1] == "PartialEq::eq(err, Exit)":
+                is_exit.append(("arm", "err", ("Exit" if e[2] else "_",), 0))
+            elif e[0] == "iflet" and e[1] == "err" and e[2] == ("Exit",):      # `if let RuntimeError::Exit = err`
+                is_exit.append(("arm", "err", ("Exit" if e[3] else "_",), 0))
+        calls = [strip_generics(e[1]) for e in evs if e[0] == "call"]
+        ncall = sum(1 for c in calls if c.endswith("ChangeableFn::call"))
+        ncrit = sum(1 for c in calls if c.endswith("ErrorHook::handle_crit"))
+        return got, is_exit, ncall, ncrit
+    n = 0
+    for it in iters:
+        got, is_exit, ncall, ncrit = analyse(list(it), "iter")
+        if not got:
+            continue
+        n += 1
+        exit_arm = is_exit and is_exit[0][2][0] == "Exit"
+        ctx.require(not exit_arm and ncall == 1 and ncrit == 1, rule, "iteration:%s" % (is_exit[0][2][0] if is_exit else "?"),
+                    "an ordinary runtime error is handed to the handler once and its critical slot is examined", eh.loc(eh.line),
+                    fail="error_hook calls the handler %d times / handle_crit %d times for one received error" % (ncall, ncrit))
+    for tail, out, val in exits:
+        got, is_exit, ncall, ncrit = analyse(list(tail), "exit")
+        if not got:
+            continue
+        if got[0][0] == "iflet" and not got[0][3]:
+            ctx.require(out == "val" and ncall == 0, rule, "exit:channel-closed", "a closed error channel ends the hook normally", eh.loc(eh.line))
+            continue
+        arm = is_exit[0][2][0] if is_exit else "?"
+        if out == "ret" and val == "Err{0: Exit}":
+            ctx.require(arm == "Exit" and ncall == 0, rule, "exit:Exit-pseudo-error:" + arm,
+                        "only RuntimeError::Exit becomes CriticalError::Exit, without calling the handler", eh.loc(eh.line),
+                        fail="error_hook returns CriticalError::Exit for a %s error (handler calls: %d)" % (arm, ncall))
+        elif out == "ret" and "from_residual" in (val or ""):
+            ctx.require(ncall == 1 and ncrit == 1 and arm != "Exit", rule, "exit:critical-propagated:" + arm,
+                        "a critical error set by the handler ends the hook with that error, after exactly one handler call", eh.loc(eh.line))
+        else:
+            ctx.violation(rule, "exit:unexpected:%s:%s" % (out, arm), "unexpected way out of error_hook: %s %s" % (out, val), eh.loc(eh.line))
+    ctx.floor(rule, "error_hook iteration paths", n, 1)
+    hc = ctx.anchor_fn(rule, "watchexec::watchexec::ErrorHook::handle_crit")
+    names = [strip_generics(c) for c, _ in thir.calls_in(thir.root(hc))]
+    ok = any(n.endswith("Arc::try_unwrap") for n in names) and any(n.endswith("OnceLock::into_inner") for n in names) \
+        and any(n.endswith("Option::map_or_else") for n in names)
+    errs = []
+    for c in facts.children(hc):
+        ctx.saw_fn(c)
+        v = thir.expr_value(thir.root(c))
+        if v[0] == "v" and v[1] == "core::result::Result":
+            errs.append((v[2], v[3]))
+    ok = ok and any(k == "Err" and list(f.values())[0] == ("var", "crit") for k, f in errs) and any(k == "Ok" for k, f in errs)
+    ctx.require(ok, rule, "handle-crit", "handle_crit returns Err(crit) exactly when the handler stored a critical error", hc.loc(hc.line),
+                fail="handle_crit no longer turns a stored critical error into Err(crit)")
+
+
 def run(ctx):
     ctx.level = "other"
     facts = ctx.facts
@@ -78,6 +152,7 @@ def run(ctx):
                      "ErrorHook; 'exactly once' is decided as one send per produced error and one handler call per received error on every path.")
     ctx.rule("R15.1", "a filter error is sent to the error channel exactly once, the event is dropped and the collect loop continues (shared with R01.1)")
     ctx.rule("R15.2", "a failed watch()/unwatch() reports every produced error and the remaining paths are still processed (shared with R13.3)")
+    ctx.also("R15.2", 'a path set changed while the worker is busy is not lost (shared with R13.1)')
     ctx.rule("R15.3", "error_hook: every received error except the Exit pseudo-error is passed to the handler exactly once and handle_crit's result is "
                       "propagated; RuntimeError::Exit becomes CriticalError::Exit without calling the handler; handle_crit turns a stored critical error into Err")
     ctx.rule("R15.4", "main task: a worker ending with CriticalError::Exit closes the event queue and the loop goes on; any other Err ends the main task "
@@ -152,75 +227,7 @@ def run(ctx):
 
     # ---- R15.3 error_hook
     try:
-        eh = ctx.anchor_one("R15.3", "error_hook coroutine",
-                            [c for c in facts.children(ctx.anchor_fn("R15.3", "watchexec::watchexec::error_hook")) if c.kind == "coroutine"])
-        en = pathx.Enum(interesting=interesting)
-        ps = en.paths(thir.root(eh))
-        iters = set()
-        exits = []
-        for p in ps:
-            tail = []
-            for e in p.ev:
-                if e[0] == "loop":
-                    iters |= set(e[1])
-                else:
-                    tail.append(e)
-            exits.append((tuple(tail), p.out, p.val))
-
-        def analyse(evs, key, final=None):
-            got = [e for e in evs if e[0] in ("iflet", "arm") and "Receiver::recv(errors)" in e[1]]
-            is_exit = [e for e in evs if e[0] == "arm" and e[1] == "err"]
-            # `matches!(err, RuntimeError::Exit)` / `err == RuntimeError::Exit` arrive as an equality branch: same evidence
-            for e in evs:
-                if e[0] == "branch" and e[1] == "PartialEq::eq(err, Exit)":
-                    is_exit.append(("arm", "err", ("Exit" if e[2] else "_",), 0))
-                elif e[0] == "iflet" and e[1] == "err" and e[2] == ("Exit",):      # `if let RuntimeError::Exit = err`
-                    is_exit.append(("arm", "err", ("Exit" if e[3] else "_",), 0))
-            calls = [strip_generics(e[1]) for e in evs if e[0] == "call"]
-            ncall = sum(1 for c in calls if c.endswith("ChangeableFn::call"))
-            ncrit = sum(1 for c in calls if c.endswith("ErrorHook::handle_crit"))
-            return got, is_exit, ncall, ncrit
-        n = 0
-        for it in iters:
-            got, is_exit, ncall, ncrit = analyse(list(it), "iter")
-            if not got:
-                continue
-            n += 1
-            exit_arm = is_exit and is_exit[0][2][0] == "Exit"
-            ctx.require(not exit_arm and ncall == 1 and ncrit == 1, "R15.3", "iteration:%s" % (is_exit[0][2][0] if is_exit else "?"),
-                        "an ordinary runtime error is handed to the handler once and its critical slot is examined", eh.loc(eh.line),
-                        fail="error_hook calls the handler %d times / handle_crit %d times for one received error" % (ncall, ncrit))
-        for tail, out, val in exits:
-            got, is_exit, ncall, ncrit = analyse(list(tail), "exit")
-            if not got:
-                continue
-            if got[0][0] == "iflet" and not got[0][3]:
-                ctx.require(out == "val" and ncall == 0, "R15.3", "exit:channel-closed", "a closed error channel ends the hook normally", eh.loc(eh.line))
-                continue
-            arm = is_exit[0][2][0] if is_exit else "?"
-            if out == "ret" and val == "Err{0: Exit}":
-                ctx.require(arm == "Exit" and ncall == 0, "R15.3", "exit:Exit-pseudo-error:" + arm,
-                            "only RuntimeError::Exit becomes CriticalError::Exit, without calling the handler", eh.loc(eh.line),
-                            fail="error_hook returns CriticalError::Exit for a %s error (handler calls: %d)" % (arm, ncall))
-            elif out == "ret" and "from_residual" in (val or ""):
-                ctx.require(ncall == 1 and ncrit == 1 and arm != "Exit", "R15.3", "exit:critical-propagated:" + arm,
-                            "a critical error set by the handler ends the hook with that error, after exactly one handler call", eh.loc(eh.line))
-            else:
-                ctx.violation("R15.3", "exit:unexpected:%s:%s" % (out, arm), "unexpected way out of error_hook: %s %s" % (out, val), eh.loc(eh.line))
-        ctx.floor("R15.3", "error_hook iteration paths", n, 1)
-        hc = ctx.anchor_fn("R15.3", "watchexec::watchexec::ErrorHook::handle_crit")
-        names = [strip_generics(c) for c, _ in thir.calls_in(thir.root(hc))]
-        ok = any(n.endswith("Arc::try_unwrap") for n in names) and any(n.endswith("OnceLock::into_inner") for n in names) \
-            and any(n.endswith("Option::map_or_else") for n in names)
-        errs = []
-        for c in facts.children(hc):
-            ctx.saw_fn(c)
-            v = thir.expr_value(thir.root(c))
-            if v[0] == "v" and v[1] == "core::result::Result":
-                errs.append((v[2], v[3]))
-        ok = ok and any(k == "Err" and list(f.values())[0] == ("var", "crit") for k, f in errs) and any(k == "Ok" for k, f in errs)
-        ctx.require(ok, "R15.3", "handle-crit", "handle_crit returns Err(crit) exactly when the handler stored a critical error", hc.loc(hc.line),
-                    fail="handle_crit no longer turns a stored critical error into Err(crit)")
+        error_hook_table(ctx, "R15.3")
     except Skip:
         pass
 
@@ -335,6 +342,10 @@ def run(ctx):
     # ---- R15.2b
     try:
         multi_path_errors(ctx, "R15.2")
+    except Skip:
+        pass
+    try:
+        _c13.subscription(ctx, "R15.2")      # a path set changed while the worker was busy is still applied, so its registration errors are still raised
     except Skip:
         pass
 
